@@ -22,8 +22,8 @@ from harness.core import Check
 from harness.probe import ProbeTable
 
 PID = 'C02'
-SMALL = 16        # the property's "small constant" (per stage), see Lazy.tla
-LENGTHS = (100, 10000)
+SMALL = 100       # the property's "small constant" (per stage), see Lazy.tla
+LENGTHS = (3000, 30000)     # both far beyond need + Small for every measured k, so that equal pull counts are meaningful
 _ROWS = {}
 
 
@@ -331,7 +331,7 @@ def record_traces(n, seed):
     for _ in range(n):
         pipe = [rng.choice(classes) for _ in range(rng.randrange(1, 5))]
         log = []
-        cons, after = measure_pipeline(pipe, 400, rng.randrange(1, 11), rng.randrange(4), log=log)
+        cons, after = measure_pipeline(pipe, 3000, rng.randrange(1, 11), rng.randrange(4), log=log)
         evs = ['y' if e[0] == 'yield' else 'p' for e in log if e[0] == 'yield' or (e[0] == 'pull' and e[3] >= 1)]
         traces.append({'pipe': pipe, 'construction': cons, 'events': evs})
     return traces
@@ -350,10 +350,10 @@ def validate_traces(chk, traces, seed):
     chk.validated += len(traces)
     chk.sample({'kind': 'pull-trace', 'pipe': traces[0]['pipe'], 'events': ''.join(traces[0]['events'])})
     bad = json.loads(json.dumps([traces[0]]))
-    bad[0]['events'] = ['p'] * 200 + bad[0]['events']         # a full scan before the first row
+    bad[0]['events'] = ['p'] * 5000 + bad[0]['events']        # a full scan before the first row
     r2, v2 = common.validate('LazyTrace', bad, name='LazyTraceBad')
     ok = v2[1][0] != 0
-    chk.binding_demo = {'corrupted': '200 extra pulls before the first yield', 'verdict': list(v2[1]), 'rejected_as_expected': ok}
+    chk.binding_demo = {'corrupted': '5000 extra pulls before the first yield', 'verdict': list(v2[1]), 'rejected_as_expected': ok}
     if not ok and not chk.violations:
         raise tlc.MachineryError('binding demo failed: eager trace accepted')
 
